@@ -16,7 +16,7 @@
 (* and for "a rejected statement is a stuttering step".                      *)
 (***************************************************************************)
 EXTENDS Engine, Json
-CONSTANTS MaxDepth, Mode
+CONSTANTS MaxDepth, Mode, GMode, WithD
 VARIABLES st, hist, base
 vars == <<st, hist, base>>
 
@@ -25,9 +25,12 @@ Tab(t, c2, fks) == [a |-> "ct", t |-> t, cols |-> << C2("ID", "INTEGER", TRUE), 
                     pk |-> <<>>, uqs |-> <<>>, checks |-> <<>>, fks |-> fks]
 Setup == << Tab("P", "X", <<>>),
             Tab("C", "PID", << Fk(<<"PID">>, "P", <<"ID">>, Mode, Mode) >>),
-            Tab("G", "CID", << Fk(<<"CID">>, "C", <<"ID">>, "cascade", "noaction") >>),
-            \* a second child of P that always restricts: a DELETE on P may cascade into C and then be refused because of D
-            Tab("D", "PID", << Fk(<<"PID">>, "P", <<"ID">>, "noaction", "noaction") >>),
+            \* the grandchild cascades or restricts (GMode): with "noaction" a DELETE on P cascades into C and is then refused
+            \* one level further down
+            Tab("G", "CID", << Fk(<<"CID">>, "C", <<"ID">>, GMode, "noaction") >>),
+            \* a second child of P that always restricts (a DELETE on P may cascade into C and then be refused because of D);
+            \* without a foreign key when WithD = FALSE, so that no DIRECT reference to P restricts
+            Tab("D", "PID", IF WithD THEN << Fk(<<"PID">>, "P", <<"ID">>, "noaction", "noaction") >> ELSE <<>>),
             \* the code refuses a self-reference inside CREATE TABLE (the table does not exist yet) but accepts it as ALTER TABLE
             Tab("S", "UP", <<>>), [a |-> "addfk", t |-> "S", n |-> "FKS", fk |-> Fk(<<"UP">>, "S", <<"ID">>, Mode, "noaction")] >>
 RECURSIVE Run(_,_)
